@@ -324,6 +324,7 @@ func checkC02(c *core.Ctx) {
 	c02Corpus(c, sc, fc, foi)
 	c02ExternalGenerics(c, sc, fc, foi)
 	c02ResultFirst(c, sc, fc, foi)
+	c02FieldAccess(c, sc, fc, foi)
 }
 
 // c02Graphs enumerates functions `let f p0 .. p(n-1) (n:int) = let s0 = R0 ; let s1 = R1 ; let s2 = R2 ; (s0, s1, s2)`
